@@ -334,20 +334,53 @@ def classify(case, impl, model, oracle):
 CHECK = {
     "property": "C18",
     "props": "Props/C18.v",
-    "theorems": [],
+    "theorems": ["c18_validate_iff", "c18_validate_total", "c18_validate_err", "c18_validate_opaque",
+                 "c18_read_total", "c18_read_iff", "c18_read_err", "c18_read_valid",
+                 "c18_oracle_valid_is_spec", "c18_oracle_read_is_spec",
+                 "c18_dispatch_validate", "c18_dispatch_read"],
     "allowed_axioms": [],
     "correspondence": {"impl_bin": "impl_c18", "extract": "Extract/ExC18.v", "driver": "run_c18.ml"},
     "gen": gen,
     "nontrivial": nontrivial,
     "classify": classify,
     "exhaustive": {"quick": False, "thorough": False},
-    "rule": "",
-    "trusted_base": [],
-    "assumptions": [],
+    "rule": ("ops v (Rdata::validate), r (Rdata::read), c (Rdata::components); exhaustive RDATA over the 8 significant "
+             "octets {0,1,2,3F,40,C0,FF,'a'} up to length 3 (thorough 4) for all 21 structured (class,type) combinations "
+             "+ 12 opaque/unknown/other-class ones; exhaustive (cursor, RDLENGTH) pairs (incl. one past the end) over 6 "
+             "fixed messages for the same 33 combinations; seeded valid RDATA built from the generator's own format table, "
+             "near-valid RDATA (12 structural defects: one octet short/long, truncated, changed length octet, field dropped/"
+             "duplicated, pointer inside a name, missing root label, ...); seeded messages with earlier names and RDATA "
+             "whose names are compressed against them or against each other (also self/forward/arbitrary pointers), "
+             "RDLENGTH at every field boundary, +-1/2, to/past the end, shifted cursors; 65535-octet RDATA; "
+             "non-trivial = structured (class,type) and, for reads, success or a rejection other than the RDLENGTH check; "
+             "distinct = distinct case line"),
+    "trusted_base": [
+        "Coq 8.16.1 kernel (vm_compute only in the Examples)",
+        "axioms: none (every theorem: Closed under the global context)",
+        "extraction: ExtrOcamlBasic only, no Extract Constant/Inductive of ours; OCaml 4.13.1 ocamlopt",
+        "correspondence: checks/c18.py generators, harness/src/bin/impl_c18.rs (catch_unwind), ocaml/run_c18.ml, line diff in tools/qv.py",
+        "tools/gen/rdata.py re-extracts the TYPE/CLASS constants, the four `match rr_type` dispatchers of Rdata::{equals,validate,read,components} "
+        "and the ComponentType arrays into Gen/RdataTables.v (line-anchored, fails loudly on an unknown handler expression)",
+        "the hand-written bodies of the validators/readers in Model/RdataM.v (differentially tested, not derived); Model/NameWire.v and its C14 theorems for embedded names",
+        "the RFC formats as transcribed in Spec/RdataFormatS.v (reviewable: 20 lines)",
+        "not verified: Cow/Box allocation, the unsafe from_unchecked casts, Rust slice semantics as modelled",
+    ],
+    "assumptions": ["octets are < 256 (wf_bytes); RDLENGTH < 65536 (it is a u16)",
+                    "cursor + RDLENGTH does not overflow usize (the model computes in nat; a cursor within 65535 of usize::MAX "
+                    "makes the real code panic on `cursor + rdlength as usize`, see docs/C18.md)"],
 }
 
 MANIFEST = {
-    "level_text": "",
-    "level_note": "",
+    "level_text": ("Coq theorems (no axioms): the model of Rdata::validate accepts exactly the encodings generated by an independent "
+                   "per-(class,type) RFC grammar, for every class and type (Ok for opaque/unknown ones); the model of Rdata::read never "
+                   "panics for any message/cursor/RDLENGTH and returns r exactly when an independent read relation (RFC 1035 §4.1.4 name "
+                   "decoding inside the RDATA-truncated message, RFC 3597 §4 decompression set) prescribes r, hence only validated, "
+                   "pointer-free RDATA; the dispatch tables are re-extracted from the source on every run and proved to select the RFC format. "
+                   "The model is tied to the code by a differential run (~90k quick cases) and both executable spec oracles (proved equal to "
+                   "the relations) are evaluated on every implementation output."),
+    "level_note": ("The write->read half is proved at the RDATA level only (uncompressed encoding placed in a message reads back; components "
+                   "partition the RDATA); the compressing writer is C12/C13's. Trusted: Coq kernel, extraction, hand-written handler bodies "
+                   "(differentially tested), the table extractor, the transcription of the RFC formats."),
     "technique": "machine-checked proof in Coq (validation = RFC grammar; read total, sound and complete vs a decoding relation) + model/implementation correspondence check",
+    "design_ref": "DESIGN.md §4 C18",
 }
